@@ -947,7 +947,7 @@ func c17Gen(root *common.Rand, i int) c17Case {
 	if g.offsets == nil {
 		g.offsets = mwOffsets(nil)
 	}
-	g.subIDs = []string{"a", "b", "c", "ab", "abc"}
+	g.subIDs = []string{"a", "b", "c", "ab", "abc", ""} // the empty id is legal
 	c17Ops(g, 6+r.Intn(9), &c)
 	return c
 }
